@@ -88,6 +88,14 @@ pub fn check_inst(x: &AInst, ctx: &[AInst], r: &mut Report, rp: &dyn Fn() -> Jso
         Ok(w) => w,
         Err(p) => return fail(r, "panic-assemble", format!("assemble() panicked: {} at {}", p.msg, p.loc)),
     };
+    // assemble_into appends to whatever the vector already holds
+    {
+        let prefix = vec![0xAAAA_0001u32, 0x0002_0000 | x.opcode as u32, 7];
+        let mut v = prefix.clone();
+        if catch(|| di.assemble_into(&mut v)).is_err() || v.len() != prefix.len() + got.len() || v[..prefix.len()] != prefix[..] || v[prefix.len()..] != got[..] {
+            return fail(r, "assemble_into-appends", format!("assemble_into on a non-empty vector gave {}", hex_words(&v)));
+        }
+    }
     if got != want {
         let rule = if got.first().map(|w| w >> 16) != Some(got.len() as u32) || got.first().map(|w| w & 0xffff) != Some(x.opcode as u32) { "assemble-first-word" } else { "assemble-words" };
         return fail(r, rule, format!("assemble() = {}", hex_words(&got)));
